@@ -183,8 +183,8 @@ func c18f4Rules(r *an.Run) {
 		})
 
 	r.Obl("reoffered-input-keeps-the-rate-already-offered", "STATE",
-		"the parameters of a pending input (SweeperInput.params as a whole, Params.StartingFeeRate) are written in package sweep only by tabled statements: handleExistingInput replaces the parameters by the re-offered ones and afterwards, on every path, stores fn.Some(r) back into the input's StartingFeeRate unless `r <= new StartingFeeRate.UnwrapOr(0)` was tested, r being a local defined before the replacement as the input's StartingFeeRate.UnwrapOr(0); markInputsPublishFailed stores fn.Some(its rate parameter), which its callers take from the bump result's FeeRate; the closure of handleNewInput stores the rate of the mempool transaction into a new input; handleUpdateReq installs the parameters of an explicit user request",
-		"the arbitrator re-offers anchors and HTLC outputs on every block: replacing the parameters wholesale drops the rate recorded after a failed publish or found in the mempool, and the next sweep starts from the estimator, below a rate already offered", 11,
+		"the parameters of a pending input (SweeperInput.params as a whole, Params.StartingFeeRate) are written in package sweep only by tabled statements: handleExistingInput replaces the parameters by the re-offered ones and afterwards, on every path, stores fn.Some(r) back into the input's StartingFeeRate unless `r <= new StartingFeeRate.UnwrapOr(0)` was tested, r being a local defined before the replacement as the input's StartingFeeRate.UnwrapOr(0); markInputsPublishFailed stores fn.Some(its rate parameter), which its callers take from the bump result's FeeRate; the closure of handleNewInput stores the rate of the mempool transaction into a new input; both of these writers are monotone: the store `B.params.StartingFeeRate = fn.Some(x)` is reached only below `x >= B.params.StartingFeeRate.UnwrapOr(0)` (same input B, same rate x, tested after their last write), so a reported rate of zero or below the recorded one never replaces it; handleUpdateReq installs the parameters of an explicit user request",
+		"the arbitrator re-offers anchors and HTLC outputs on every block: replacing the parameters wholesale drops the rate recorded after a failed publish or found in the mempool, and the next sweep starts from the estimator, below a rate already offered; a failure that carries no rate (no output, zero delta, below-floor budget, estimator or broadcast error) reports 0, which stored as-is reads as 'none' and has the same effect, as does a mempool rate below the one the caller requested", 15,
 		func(o *an.Obl) {
 			c18f4ReofferKeepsRate(o, p)
 		})
@@ -457,7 +457,10 @@ func c18f4ReofferKeepsRate(o *an.Obl, p *an.Prog) {
 				x := someOf(f, rhs)
 				if isWhole || x == nil || f.Canon(x) != "$p1" {
 					o.FailAt(f.ID+"#failed-rate", w.Where(), "%s: expected StartingFeeRate = fn.Some(<the rate parameter>)", an.Text(as))
+					continue
 				}
+				// never lowered or zeroed (repair f94f7cd)
+				c18f5MonotoneRateWrite(o, f, w, as, x)
 			case us + "handleNewInput$1":
 				x := someOf(f, rhs)
 				if isWhole || x == nil || !reMatch(`^\$(lit\.)?p0\.FeeRate$`, f.Canon(x)) {
@@ -465,6 +468,10 @@ func c18f4ReofferKeepsRate(o *an.Obl, p *an.Prog) {
 				}
 				if !c18f4FreshInput(o, f, as.Lhs[0]) {
 					o.FailAt(f.ID+"#mempool-rate-target", w.Where(), "the mempool rate is stored into %s, expected the params of the input handleNewInput has just created", lhs)
+				}
+				// replaces a requested rate only if it is higher (repair 53291d0)
+				if !isWhole && x != nil {
+					c18f5MonotoneRateWrite(o, f, w, as, x)
 				}
 			case us + "handleUpdateReq":
 				// explicit user request (UpdateParams / bumpfee): the rate is
